@@ -20,7 +20,44 @@ gen = open(os.path.join(ROOT, "lean/PdfVerif/Generated/InvROBSwallow.lean")).rea
 keys = [bytes(m.group(1), "utf-8").decode("unicode_escape") for m in re.finditer(r'^  "((?:[^"\\]|\\.)*)",?$', gen, re.M)]
 
 MEM = "noterror: works on bytes already in memory (the stream was read by ReadAll before), no read can fail here"
+CRY = "noterror: key-length errors of rc4.NewCipher/aes.NewCipher; the keys are built by the library with a valid length; no I/O"
 R = [
+ # ---------------- package pdf itself (root directory)
+ (r"catalog\.go:DecodeCatalog:discard:(needsRendering|pageLayout|pageMode), _ := c\.", "fix: D-C19b-1.diff — an indirect /PageLayout, /PageMode or /NeedsRendering whose read fails gave the zero value with a nil error (NewReader succeeds in every mode)"),
+ (r"catalog\.go:DecodeCatalog:errnil:if err == nil && langStr", "fix: D-C19b-1.diff — the same for an indirect /Lang"),
+ (r"catalog\.go:DecodeCatalog:discard:lang, _ = language\.Parse", "noterror: parses a string already in memory; an unparsable tag is tolerated"),
+ (r"catalog\.go:DecodeCatalog:errnil:if v, err := ParseVersion", "noterror: parses a string already in memory (dict[\"Version\"] is used as it stands, an indirect /Version is not resolved at all)"),
+ (r"catalog\.go:Catalog\.Encode:errnil", "noterror: writer side, Version.ToString of a value in memory"),
+ (r"info\.go:ExtractInfo:errnil:if name, err := c\.Name\(trappedObj\)", "fix: D-C19b-2.diff — an indirect /Trapped whose read fails gave 'unknown' with a nil error"),
+ (r"info\.go:ExtractInfo:errnil:if ts, err := c\.TextString\(val\)", "fix: D-C19b-2.diff — custom keys of /Info whose read fails vanished with a nil error"),
+ (r"metadata_stream\.go:ExtractMetadataStream:errnil:if filters, ferr := c\.Filters", "fix: D-C19b-3.diff — the second resolution of an indirect /Filter or /DecodeParms: a read error flipped Plaintext and left PadToLength in place"),
+ (r"metadata_stream\.go:ExtractMetadataStream:errnil:if ferr == nil", "waiver: after D-C19b-3.diff: read errors are returned just above; a malformed filter chain only means 'not plaintext'"),
+ (r"complex\.go:String\.AsDate:errnil", "noterror: time.Parse on a string in memory, the next layout is tried"),
+ (r"copier\.go:Copier\.Copy:errnil:if closeErr := rc\.Close\(\); err == nil", "waiver: the error of ReadAll wins, else the error of Close is returned; both are tested in the next statement"),
+ (r"copier\.go:Copier\.CopyReference:errdrop", "waiver: IsReadError(err) is returned in the branch just above (D95-D98); a malformed source object is copied as null by design"),
+ (r"crypto\.go:.*:discard:c, _ :?= (rc4|aes)\.NewCipher", CRY),
+ (r"crypto\.go:stdSecHandler\.authenticate:errdrop", "noterror: padPasswd/utf8Passwd work on the password string; a password without an encodable form is a wrong password"),
+ (r"crypto\.go:stdSecHandler\.authenticate:errnil", "noterror: authenticateOwner/User compute on the /O /U /OE /UE strings of the encryption dictionary, which was read before; no I/O"),
+ (r"error\.go:Wrap:errnil", "noterror: Wrap(nil) is nil"),
+ (r"filter\.go:FilterJBIG2\.Decode:discard:n, _ := r\.Read\(probe", "waiver: reached only when the data filled the whole remaining budget; whatever the probe returns, the budget has no headroom left and the decoding that follows fails (budget error, or the source's error through DecodeStream's sourceAwareReader) — an error in every case, never different data"),
+ (r"meta\.go:Version\.String:errdrop", "noterror: formatting of a value in memory"),
+ (r"reader\.go:NewReader:errnil", "noterror: first test of the shouldExit closure (nil is no reason to stop); the closure is pinned in Props/C05robinv"),
+ (r"reader\.go:getObjStm:errdrop:if err != nil \{ decoded\.Close\(\) \}", "waiver: deferred clean-up (D111): on an error path the decoded reader is closed and the error that is already being returned stays; the error of Close is not wanted there"),
+ (r"reader\.go:getFromObjStm:errnil", "waiver: deferred Close of the object stream: its error is adopted when there was none (D-C19b-5.diff makes Close report the source's error)"),
+ (r"scanner\.go:scanner\.PeekN:errnil", "waiver: ROB-1 fix (D33): a read error that arrived together with data is adopted from s.err; model ROBScanBuf.peekN, lemma C19robtok"),
+ (r"scanner\.go:scanner\.ScanBytes:errnil", "waiver: an empty window without an error is reported as io.EOF; model ROBScanBuf.scanBytes"),
+ (r"scanner\.go:scanner\.ReadNumber:errnil", "noterror: strconv.ParseInt on bytes in memory; too large integers become Real"),
+ (r"scanner\.go:scanner\.ReadStreamData:errnil", "waiver: ROB-2 fix (a2d2dfe): IsReadError(err) is returned in the statement just above; a malformed /Length means 'recover the extent'"),
+ (r"sequential\.go:FileInfo\.MakeReader:errnil", "noterror: first test of the shouldExit closure, and the replacement of a nil error by 'no pages in PDF document catalog'"),
+ (r"sequential\.go:FileInfo\.getTrailer:errnil", "waiver: ROB-3 fix (24df3f0): IsReadError(err) is returned right before (cross-reference stream) resp. right after (trailer dictionary; TrailerPos == 0 fails without reading) the success test"),
+ (r"sequential\.go:FileInfo\.locateObjects:errdrop", "noterror: strconv.ParseUint on the digits of a matched marker in memory; an object number out of range is no object"),
+ (r"types\.go:Parse(Name|String):discard", "noterror: the scanner reads from a bytes.Reader over the argument"),
+ (r"types\.go:Placeholder\.Set:errnil:if _, err := doFormat", "noterror: formatting into a bytes.Buffer; Set has formatted the same value successfully just above"),
+ (r"types\.go:Placeholder\.Set:errnil:if err == nil && n <", "waiver: a short write without error becomes io.ErrShortWrite (ROB-9b, D46); errors are returned in the next statement"),
+ (r"types\.go:formatString:errdrop", "waiver: writer side: after the first failed write nothing more is written and finalErr is returned at the end"),
+ (r"writer\.go:Writer\.get:errnil", "waiver: deferred Seek back to the write position: its error is adopted when there was none"),
+ (r"writer\.go:posWriter\.Write:errnil", "waiver: a short write without error becomes io.ErrShortWrite (ROB-9b, D46)"),
+ (r"xref\.go:decodeXRefStream:errdrop", "noterror: decodeInt on the bytes of one entry already read by io.ReadFull (whose error is returned); fields that overflow int64 skip the entry by design"),
  # ---------------- internal/pdftree
  (r"internal/pdftree/memory\.go:extractFromNode:errdrop", "fix: D-C19-pdftree.diff — extractFromNode had no error result; ExtractInMemory returned a partial map with a nil error after a read error"),
  (r"internal/pdftree/streaming\.go:\?\.(Lookup|lookupInNode):errdrop", "fix: D-C19-pdftree.diff — Lookup answered ErrKeyNotFound for a present key after a read error"),
@@ -92,14 +129,14 @@ kinds = [kind(r) for _, r in out]
 counts = (len(out), kinds.count(".fix"), kinds.count(".waiver"), kinds.count(".noterror"))
 print('''import PdfVerif.Generated.InvROBSwallow
 /-!
-# C19 — inventory of discarded and dropped errors in the packages a document walk goes through
+# C19 — inventory of discarded and dropped errors in package pdf and the packages a document walk goes through
 
 `Generated/InvROBSwallow.lean` is re-extracted from the Go sources on every check (tools/extract,
 `swallow_dirs` of facts.d/12_rob_swallow.json): assignments that discard the last result of a call
 (`x, _ := f()`), if statements that test `err != nil` and go on without the error
 (`if err != nil { continue }`), and if statements without else that only handle `err == nil`.
 `reviewed` gives every key a verdict: `fix` — read errors are swallowed, a patch exists
-(/tmp/w/robust/fixes/D-C19-*.diff; the all-k walk of harness/rob_c19w.go shows the effect);
+(/tmp/w/robust/fixes/D-C19-*.diff and D-C19b-*.diff; the all-k walks of harness/rob_c19w.go and rob_c19x.go show the effect);
 `waiver` — reviewed and accepted; `noterror` — the discarded value is no error or no I/O is behind
 the call.  `swallow_reviewed` says that the two lists are equal: a NEW discarded or dropped error in
 these packages breaks the build until it has a verdict here.
